@@ -42,6 +42,11 @@ static Plan c04_gen(uint64_t seed, int tier, uint64_t index) {
     int cb = (int) r.below(4);
     if (vsrv && cb == CB_NONE) { cb = CB_STRICT; }                 // a server without a callback does not request a client certificate at all
     Plan p = make_plan(kex, vsrv, defect, cb, ALERTS[r.below(7)], seed);
+    if ((defect == D_EXPIRED || defect == D_NOT_YET_VALID) && r.chance(1, 2)) {
+        static const int SECOND[] = { D_UNKNOWN_CA, D_FORGED_CERT, D_NAME };
+        int d2 = SECOND[r.below(3)]; if (d2 == D_NAME && vsrv) { d2 = D_UNKNOWN_CA; }
+        p.cfg["defect2"] = d2;
+    }
     p.cfg["skew_extra"] = (int64_t) r.below(400);                 // days added to the clock jump
     p.cfg["name_var"] = (int64_t) r.below(13);                    // which wrong expected name (name_mismatch) ...
     if (defect != D_NAME && !vsrv && r.chance(1, 3)) { p.cfg["right_name"] = 1 + (int64_t) r.below(2); }   // ... or the right one, as a control riding on other defects
@@ -69,6 +74,24 @@ static std::vector<Plan> c04_fixed(int tier) {
             }
         }
     }
+    // double defects: validity period + one of (unknown CA, forged signature, name mismatch), per key exchange and role, under a callback that accepts exactly one alert
+    for (int kex = 0; kex < NKEX; kex++) {
+        for (int vsrv = 0; vsrv < 2; vsrv++) {
+            if (vsrv && !tier && (kex % 3) != 0) { continue; }
+            for (int d1 = D_EXPIRED; d1 <= D_NOT_YET_VALID; d1++) {
+                static const int SECOND[] = { D_UNKNOWN_CA, D_FORGED_CERT, D_NAME };
+                for (int si = 0; si < 3; si++) {
+                    if (SECOND[si] == D_NAME && vsrv) { continue; }
+                    static const int AL[] = { SSL_ALERT_CERTIFICATE_EXPIRED, SSL_ALERT_UNKNOWN_CA, SSL_ALERT_BAD_CERTIFICATE, SSL_ALERT_CERTIFICATE_UNKNOWN };
+                    for (int ai = 0; ai < 4; ai++) {
+                        if (!tier && d1 == D_NOT_YET_VALID && ai > 0) { continue; }
+                        Plan p = make_plan(kex, vsrv, d1, CB_ALLOW_ONE, AL[ai], 47000 + v.size()); p.cfg["defect2"] = SECOND[si]; v.push_back(p);
+                    }
+                    Plan q = make_plan(kex, vsrv, d1, vsrv ? CB_STRICT : CB_NONE, 0, 47000 + v.size()); q.cfg["defect2"] = SECOND[si]; v.push_back(q);
+                }
+            }
+        }
+    }
     // expected-name grid: every wrong name x version family x {no callback, strict callback}, plus the right name in both cases as control
     for (int kex = 0; kex < NKEX; kex += 2) {
         for (int nv = 0; nv < 13; nv++) { for (int cb = 0; cb < 2; cb++) { Plan p = make_plan(kex, 0, D_NAME, cb, 0, 45000 + v.size()); p.cfg["name_var"] = nv; v.push_back(p); } }
@@ -81,6 +104,8 @@ static RunResult c04_exec(const Plan &p) {
     RunResult res;
     int kex = (int) ((uint64_t) p.get("kex") % NKEX), vsrv = (int) p.get("vsrv"), defect = (int) p.get("defect"), cb = (int) p.get("cb");
     const KexChoice &K = KEX[kex];
+    int defect2 = (int) p.get("defect2");      // a second, independent credential defect (certificate defects only): no single accepted alert covers both
+    auto has = [&](int d) { return defect == d || defect2 == d; };
     vsim_run_reset(p.seed);
     sim_global_open();
     {
@@ -89,14 +114,14 @@ static RunResult c04_exec(const Plan &p) {
         pc.version = V[K.ver]; pc.suites = { K.suite }; pc.server_identity = K.kind;
         if (vsrv) { pc.client_auth = true; pc.client_identity = K.kind == KK_ECDH_RSA || K.kind == KK_ED25519 ? KK_EC256 : K.kind; pc.cb_s = cb; pc.cb_c = CB_ALLOW_ALL; }
         else { pc.cb_c = cb; pc.cb_allow_alert_c = (int) p.get("cb_alert"); }
-        if (defect == D_UNKNOWN_CA && !vsrv) { pc.client_trusts_server = false; }
-        if (defect == D_FORGED_CERT || defect == D_FORGED_COPIED_SIG) { if (vsrv) { pc.forge_client_cert = true; } else { pc.forge_server_cert = true; } pc.forge_mode = defect == D_FORGED_COPIED_SIG ? 1 : 0; }
+        if (has(D_UNKNOWN_CA) && !vsrv) { pc.client_trusts_server = false; }
+        if (has(D_FORGED_CERT) || defect == D_FORGED_COPIED_SIG) { if (vsrv) { pc.forge_client_cert = true; } else { pc.forge_server_cert = true; } pc.forge_mode = defect == D_FORGED_COPIED_SIG ? 1 : 0; }
         // every test certificate is issued for DNS:localhost / IP:127.0.0.1; expected names that are NOT that name, from unrelated to near misses
         static const char *WRONG[] = { "wrong-host.example.org", "localhost.attacker.example", "LOCALHOST.corp.example.com", "localhostx", "xlocalhost", "localhos", "local", "a.localhost",
                                        "localhost.localhost", "127.0.0.10", "27.0.0.1", "localhost-1", "l0calhost" };
         // (names psX509ValidateGeneralName rejects - "xn--...", "a..b" - never reach validation: matrixSslNewClientSession refuses them)
         std::string wrong_name = WRONG[(uint64_t) p.get("name_var") % (sizeof WRONG / sizeof WRONG[0])];
-        if (defect == D_NAME) { pc.expected_name = wrong_name; }
+        if (has(D_NAME)) { pc.expected_name = wrong_name; }
         else if (!vsrv && p.get("right_name")) { pc.expected_name = p.get("right_name") == 2 ? "LOCALHOST" : "localhost"; }   // control: the right name (any case) must not fail a handshake
         TlsWorld w;
         if (!w.setup(pc)) { res.harness_error = true; res.detail = "setup rc=" + std::to_string(w.setup_rc); }
@@ -104,9 +129,7 @@ static RunResult c04_exec(const Plan &p) {
             int vnode = vsrv ? NODE_SERVER : NODE_CLIENT;
             // the verifier's clock, jumped after the keys were loaded (loading rejects an already expired identity)
             int64_t extra = p.get("skew_extra") * 86400;
-            if (defect == D_EXPIRED) { vsim_node_skew(vnode, 0, 5LL * 365 * 86400 + extra); /* every test certificate has expired by mid-2031 */ }
-            if (defect == D_NOT_YET_VALID) { vsim_node_skew(vnode, 0, -15LL * 365 * 86400 - extra); }
-            if (defect == D_UNKNOWN_CA && vsrv) {
+            if (has(D_UNKNOWN_CA) && vsrv) {
                 // the server's CA list lacks the client's issuer: reload server keys trusting another CA
                 vsim_set_node(NODE_SERVER);
                 matrixSslDeleteKeys(w.skeys);
@@ -114,6 +137,8 @@ static RunResult c04_exec(const Plan &p) {
                 int rc = 0; w.skeys = load_keys(s, &rc);
                 if (!w.skeys) { res.harness_error = true; res.detail = "server key reload failed"; }
             }
+            if (!res.harness_error && has(D_EXPIRED)) { vsim_node_skew(vnode, 0, 5LL * 365 * 86400 + extra); /* every test certificate has expired by mid-2031 */ }
+            if (has(D_NOT_YET_VALID)) { vsim_node_skew(vnode, 0, -15LL * 365 * 86400 - extra); }
             if (!res.harness_error && defect == D_RESUME_UNAUTH) {
                 // One server process, one session cache, two kinds of server sessions: connection 1 is made on a server session that does NOT
                 // ask for a client certificate (the client proves nothing); connection 2 goes to a server session configured for client
@@ -163,8 +188,8 @@ static RunResult c04_exec(const Plan &p) {
                 uint64_t corrupted = defect == D_POP_OMITTED ? vsim_hs_skipped() : vsim_sign_corrupted();
                 vsim_hs_skip(-1, -1, 0);
                 vsim_sign_corrupt(-1, 0); vsim_sign_mode(0);
-                std::string ctx = std::string(ver_name(pc.version)) + "," + (vsrv ? "server" : "client") + "," + D_NAME_S[defect] + "," + CB_S[cb];
-                res.count(std::string("outcome.") + D_NAME_S[defect] + (completed ? ".completed" : ".refused"));
+                std::string ctx = std::string(ver_name(pc.version)) + "," + (vsrv ? "server" : "client") + "," + D_NAME_S[defect] + (defect2 ? std::string("+") + D_NAME_S[defect2] : std::string()) + "," + CB_S[cb];
+                res.count(std::string("outcome.") + D_NAME_S[defect] + (defect2 ? std::string("+") + D_NAME_S[defect2] : std::string()) + (completed ? ".completed" : ".refused"));
                 // was the failure explicitly accepted by the application?
                 bool accepted_by_cb = false;
                 for (size_t i = 0; i < ver.cb_alerts.size(); i++) { if (ver.cb_alerts[i] != 0) { accepted_by_cb = ver.cb_last_ret == 0 || ver.cb_last_ret == SSL_ALLOW_ANON_CONNECTION; } }
@@ -176,8 +201,10 @@ static RunResult c04_exec(const Plan &p) {
                     else if (completed) { res.violate("completed_with_defect", ctx, std::string(defect == D_POP_OMITTED ? "the peer never sent its proof-of-possession message (omitted " : defect == D_POP_OTHER_DATA ? "the peer's proof-of-possession signature was a genuine signature over OTHER data (" : "the peer's proof-of-possession signature was corrupted (") + std::to_string(corrupted) + " signature(s)) and the handshake still completed"); }
                 } else if (completed) {
                     bool overridden = cb != CB_NONE && cb_saw_failure && accepted_by_cb;
+                    // two defects of different kinds, and an application that accepts exactly ONE alert: whichever it was shown, the other failure was never accepted
+                    if (defect2 != D_NONE && cb == CB_ALLOW_ONE) { overridden = false; }
                     if (!overridden) {
-                        res.violate("completed_with_defect", ctx, "peer credential defect '" + std::string(D_NAME_S[defect]) + "' and the handshake completed although no callback accepted that failure (callback policy " +
+                        res.violate("completed_with_defect", ctx, "peer credential defect '" + std::string(D_NAME_S[defect]) + (defect2 ? std::string("' + '") + D_NAME_S[defect2] : std::string()) + "' and the handshake completed although no callback accepted that failure (callback policy " +
                                     CB_S[cb] + ", callback calls " + std::to_string(ver.cb_calls) + ", last alert given " + std::to_string(ver.cb_last_alert) + ", returned " + std::to_string(ver.cb_last_ret) + ")");
                     }
                 }
